@@ -29,7 +29,7 @@ PROP = {
                       "updates is not proved (the fuelled runner reports exhaustion as 95; never observed). The acceptance rule for "
                       "racy observations (Run/RunWatch.v) is an interval abstraction of the model, validated, not proved complete. "
                       "ReceiverStream, wait_for, mark_changed/unchanged, forward() and max_item_size handling are outside the model.",
-        "trivial_sig": r"^exact:cells0:tx0:.*:drop0:burst[01]:",
+        "trivial_sig": r"^exact:hops0:tx0:drop0:burst[01]:",
         "disagreement_is_violation": None,
         "rule": "cases from one PRNG (VERIF_SEED): initial payload, 0-2 early receiver transfers, then 6-34 steps drawn from: bursts of 1-5 "
                 "send/send_modify (1 in 8 followed at once by the drop of the sender), observations (borrow_and_update, borrow, a poll "
@@ -37,9 +37,9 @@ PROP = {
                 "clone, subscribe, receiver drop, transfer of the sender, harness yields (partial progress of the forwarding tasks), "
                 "transport stall / piecewise frame delivery / unstall (a quarter of the cases), sender drop; a quiescence barrier follows "
                 "a step with probability 10/25/50/80 % (per case); every 12th case is repeated as an oracle-only stream with connection "
-                "failures (prefix fault:); signature = class (exact/race/fault), number of remote cells, sender transfers, receivers, "
-                "drop kind (2 = right after an update), longest burst, stall, racy/exact/stale observation counts; a case is "
-                "non-trivial unless it has no remote cell, no sender transfer, no sender drop and no burst; distinct = distinct input",
+                "failures (prefix fault:); signature = class (exact/race/fault), longest chain of connections between the sender and a live receiver, sender transfers, "
+                "drop kind (2 = right after an update), longest burst, stall, racy and stale observation counts; a case is "
+                "non-trivial unless it has no remote receiver, no sender transfer, no sender drop and no burst; distinct = distinct input",
         "assumptions": [
             "Tokio watch semantics T1-T3 as stated in Rch/Watch.v",
             "FIFO exactly-once delivery on the remote channel of a link (C01, C04); postbag round-trips u64",
